@@ -267,11 +267,12 @@ func propC17(c *Ctx) {
 		nTok = 60000
 	}
 	propTokC(c, nTok)
+	propClassStates(c)
 	c.Notes = append(c.Notes, fmt.Sprintf("%d tokenizer configurations: 1..5 of SetCharacterState (7 states incl. nil) / ClearCharacterStates / SetWordChars / ClearWordChars / SetWhitespaceChars / ClearWhitespaceChars / SymbolState.Add over 18 boundary ranges and random ones, on the generic and expression tokenizers; oracles: GetCharacterState = latest covering registration on every input character and range endpoint, lossless tokens; token streams compared with the model", nTok))
 }
 
 func replayC17(c *Ctx, op string) {
-	if replayTokC(c, op) {
+	if replayTokC(c, op) || replayWc(c, op) {
 		return
 	}
 	f := strings.Fields(op)
